@@ -23,6 +23,7 @@
 #include <time.h>
 
 #include "numeric.h"
+#include "verifhooks.h"
 #include "vector.h"
 #include "matrix.h"
 #include "interpolate.h"
@@ -56,12 +57,15 @@ uint32_t XOR128_SEED = 0;
 
 void srand_(uint32_t seed)
 {
+  LIBSCI_VERIF_RNG(0, (unsigned int)seed, 0);
   XOR128_SEED = generate_seed(seed);
+  LIBSCI_VERIF_RNG(0, (unsigned int)seed, 1);
 }
 
 double rand_()
 {
   struct xorshift128_state state;
+  LIBSCI_VERIF_RNG(1, 0, 0);
   if(XOR128_SEED  == 0)
     XOR128_SEED = time(NULL);
   state.x[0] = XOR128_SEED;
@@ -69,12 +73,14 @@ double rand_()
   state.x[2] = XOR128_SEED ^ 0x3a8e9f2baf7e592bULL;
   state.x[3] = XOR128_SEED ^ 0x0b243e4b4b2aa8d3ULL;
   XOR128_SEED = generate_seed(XOR128_SEED);
+  LIBSCI_VERIF_RNG(1, 0, 1);
   return xorshift128(&state);
 }
 
 int randInt(int low, int high)
 {
   struct xorshift128_state state;
+  LIBSCI_VERIF_RNG(2, (unsigned int)high, 0);
   if(XOR128_SEED  == 0)
     XOR128_SEED = time(NULL);
   state.x[0] = XOR128_SEED;
@@ -82,6 +88,7 @@ int randInt(int low, int high)
   state.x[2] = XOR128_SEED ^ 0x3a8e9f2baf7e592bULL;
   state.x[3] = XOR128_SEED ^ 0x0b243e4b4b2aa8d3ULL;
   XOR128_SEED = generate_seed(XOR128_SEED);
+  LIBSCI_VERIF_RNG(2, (unsigned int)high, 1);
   return (int) (xorshift128(&state) % ((high) - low) + low);
 }
 
@@ -91,6 +98,7 @@ double randDouble(double low, double high)
    * xor128() cannot return 4294967296
    */
   struct xorshift128_state state;
+  LIBSCI_VERIF_RNG(3, 0, 0);
   if(XOR128_SEED  == 0)
     XOR128_SEED = time(NULL);
   state.x[0] = XOR128_SEED;
@@ -98,6 +106,7 @@ double randDouble(double low, double high)
   state.x[2] = XOR128_SEED ^ 0x3a8e9f2baf7e592bULL;
   state.x[3] = XOR128_SEED ^ 0x0b243e4b4b2aa8d3ULL;
   XOR128_SEED = generate_seed(XOR128_SEED);
+  LIBSCI_VERIF_RNG(3, 0, 1);
   double range = (high - low);
   double div = 4294967296.0 / range;
   return low + (xorshift128(&state) / div);
